@@ -520,7 +520,7 @@ def mk_validate(ctx):
     'C12': 'the gate and the identifier must agree on the dot: Op::dot() reads the marker of the last path element, so every identifier '
            'between() builds must end with the caller\'s marker',
     'C14': 'identifiers tagged with distinct dots never collide only if the marker really ends the path',
-}, floor=2)
+}, floor=3)
 def id_marker(ctx):
     """Identifier::between: the last path element pushed before the walk ends carries the caller's marker (prefix copies are
     always followed by another iteration), the one-bound case builds [(.., marker)], the swapped recursion passes the marker on;
@@ -581,6 +581,15 @@ def id_marker(ctx):
         if st[0] == 'field' and st[2] == '1' and any(is_call(s2, 'last') and param_path(s2[2][0]) == (1, ('0',)) for s2 in subterms(st[1])):
             ok = True
     ctx.check(ok, 'value', vb, 'marker of the last path element', 'Identifier::value() is %s, expected the marker of the last path element' % fmt(r, 5))
+    # the consuming twin (GList::read_into / List readers that take the element out) must agree with value()
+    ib = ctx.inherent(IDENT, 'into_value')
+    r = drop_lv(inline_option_maps(facts, interp(facts, ib).ret))
+    ok = False
+    for st in subterms(r):
+        if st[0] == 'field' and st[2] == '1' and any(is_call(s2, ('pop', 'last', 'pop_back', 'next_back')) and (
+                param_path(versionless(s2[2][0])) == (1, ('0',)) or param_path(iter_source(s2[2][0])[0]) == (1, ('0',))) for s2 in subterms(st[1])):
+            ok = True
+    ctx.check(ok, 'into_value', ib, 'marker of the last path element', 'Identifier::into_value() is %s, expected the marker of the last path element' % fmt(r, 5))
 
 
 @rule('ID-BETWEEN', {
